@@ -10,8 +10,10 @@ bookkeeping of the distinct current validators that voted.
 The vote handler glue (consensus_vote.VoteHandler.MakeDepositProposal: witness, vote id, release, payload decoding,
 done-transaction guard with revert) is run on the real code in the same stream (`deposit` ops) and modelled; the vote
 id (SHA-256 of the unique EntranceParam) and the cross chain id inside the payload are oracle values of the op line,
-checked by the harness. ripple_handler.MakeDepositProposal calls the same CheckVotes with the same id derivation; its
-asset-binding continuation belongs to the cross-chain checks.
+checked by the harness. ripple RippleHandler.MakeDepositProposal's vote phase runs in the same stream (`rdeposit` ops;
+the success of its asset-binding continuation is an oracle value). Votes are counted per exact payload: payloads of one
+source transaction that differ only in amount / destination / target contract must not be tallied together.
+side_chain_manager.UpdateFee (another CheckVotes caller) is covered by `fee` ops.
 """
 from checks import gov_common
 
